@@ -7,7 +7,7 @@ sys.path.insert(0, os.path.join(os.path.dirname(os.path.dirname(os.path.abspath(
 import gen_samples as G  # noqa
 
 PROP = "C01"
-SUBCHECKS = ["C01G", "C01R"]   # grand composition: model_create bytes -> AgcV3.decode = input (props/C01G.v)
+SUBCHECKS = ["C01G", "C01R", "C01T"]   # grand composition: model_create bytes -> AgcV3.decode = input (props/C01G.v)
 AREAS = ["kmer", "segment", "pipeline", "groupstore", "tuple", "lz", "collection", "splitpos"]   # the last four: composition theorems
 THEOREMS = ["rc_seq_eq_rc_dec", "rc_pre_eq_rc_dec", "rc_dec_involutive", "orient_ok", "split_overlap",
             "part_numbers_dense", "reassemble", "placement_order_irrelevant", "duplicate_name_rejected",
